@@ -141,8 +141,26 @@ def rejects_negative(ctx: Ctx) -> None:
            "bs_european_binary_price": lambda t, v: F.bs_european_binary_price(s, t, v), "bs_european_binary_delta": lambda t, v: F.bs_european_binary_delta(s, t, v),
            "bs_american_binary_price": lambda t, v: F.bs_american_binary_price(s, m, t, v), "bs_american_binary_delta": lambda t, v: F.bs_american_binary_delta(s, m, t, v, 1.0),
            "bs_lookback_price": lambda t, v: F.bs_lookback_price(s, m, t, v, 1.0), "d1": lambda t, v: F.d1(s, t, v), "d2": lambda t, v: F.d2(s, t, v)}
+    zero = torch.tensor(0.0, dtype=DT)
+    tiny_neg, tiny = torch.tensor(-1e-30, dtype=DT), torch.tensor(1e-40, dtype=DT)
+    cases = [(neg, pos, "time_to_maturity"), (pos, neg, "volatility"), (torch.stack([pos, neg]), torch.stack([pos, pos]), "time_to_maturity (one element)"),
+             # a negative argument together with the OTHER one exactly zero (or so small that their product underflows)
+             (zero, neg, "volatility (time to maturity exactly 0)"), (neg, zero, "time_to_maturity (volatility exactly 0)"),
+             (tiny, tiny_neg, "volatility (product with sqrt(t) underflows)"),
+             (torch.stack([pos, zero]), torch.stack([pos, neg]), "volatility (one element, at t = 0)")]
+    # d1 / d2 are documented for tensors AND plain Python numbers
+    for name in ("d1", "d2"):
+        for t, v, what in ((-1.0, 0.2, "time_to_maturity given as a Python float"), (1.0, -0.2, "volatility given as a Python float"), (-1, 0.2, "time_to_maturity given as a Python int")):
+            ctx.count(n=1)
+            try:
+                out = getattr(F, name)(s, t, v)
+                ctx.violation(f"bs:negative-accepted:{name}", f"{name} accepts a negative {what} (returns {out.flatten().tolist()}) instead of raising", {})
+            except ValueError:
+                pass
+            except Exception as e:
+                ctx.violation(f"bs:negative-wrong-error:{name}", f"{name} raises {type(e).__name__} instead of ValueError for a negative {what}", {})
     for name, fn in fns.items():
-        for t, v, what in ((neg, pos, "time_to_maturity"), (pos, neg, "volatility"), (torch.stack([pos, neg]), torch.stack([pos, pos]), "time_to_maturity (one element)")):
+        for t, v, what in cases:
             ctx.count(n=1)
             try:
                 out = fn(t, v)
